@@ -21,6 +21,11 @@ namespace BfeVerif.C37
 
 def limit : Nat := BfeVerif.Generated.C37.maxQueuedControlFrames
 
+/-- extracted from server.go: the limit check is the last statement of serve()'s loop body (after the
+    `select`), so it runs at the end of every iteration whatever the event and its outcome were.
+    `step` below models exactly that; `C37_check_every_iteration` (Props) requires the fact. -/
+def checkEveryIteration : Bool := BfeVerif.Generated.C37.checkAtLoopTail
+
 /-- what the writer goroutine currently holds -/
 inductive Fl where
   | idle | ctl | stream | ack | flush
